@@ -322,7 +322,12 @@ def replace_pattern_in_structure(
             new_atoms = replace_pattern.copy()
             new_atoms.positions = q.apply(new_atoms.positions)
             new_atoms.translate(atom_positions[0])
-            new_atoms.positions %= np.diag(new_structure.cell)
+            if new_structure.cell_is_orthorhombic():
+                new_atoms.positions %= np.diag(new_structure.cell)
+            else:
+                # triclinic: wrap in fractional coordinates
+                fractional = new_atoms.positions.dot(np.linalg.inv(new_structure.cell)) % 1.0
+                new_atoms.positions = fractional.dot(new_structure.cell)
 
             if verbose:
                 print("new atoms after translate:\n", new_atoms.positions)
